@@ -131,7 +131,7 @@ class StmtGen:
         r = rnd.random()
         if depth <= 0:
             r = r * 0.42
-        if r < 0.04 and (self.macros or self.frags):
+        if r < 0.05 and (self.macros or self.frags):
             # a rendered fragment as an operand of ~ (it must keep its safe flag: C15 / C16)
             if self.macros and (not self.frags or rnd.random() < 0.6):
                 m, np_ = rnd.choice(self.macros)
@@ -140,7 +140,7 @@ class StmtGen:
                 frag = N(rnd.choice(self.frags))
             other = rnd.choice([N(self.name()), C(META), C("s")])
             return J.Out(J.Concat(*([frag, other] if rnd.random() < 0.5 else [other, frag])))
-        if r < 0.07 and "recursive" in self.f:
+        if r < 0.09 and "recursive" in self.f:
             v = rnd.choice(["t", "u"])
             return J.For(J.TName(v), N("tr"), [J.Out(J.Getattr(N(v), "n")), J.Text("("), J.Out(J.Call(N("loop"), [J.Getattr(N(v), "k")])),
                                                   J.Text(")")] + ([J.Out(J.Getattr(N("loop"), "depth"))] if rnd.random() < 0.4 else []),
@@ -183,6 +183,9 @@ class StmtGen:
                 own = params[np_ - nd + i]
                 defaults.append(rnd.choice([C(7), N(self.name()), N("p0") if (np_ - nd + i) >= 1 else C(8), N(own)]))
             body = self.body(depth - 1, False, True)
+            if rnd.random() < 0.5:
+                # make the rendered fragment carry text that needs escaping
+                body.append(J.Out(rnd.choice([C(META), N(self.name()), N("p0") if np_ else C(META)])))
             if rnd.random() < 0.25:
                 body.append(J.Out(N(rnd.choice(["varargs", "kwargs"]))) if False else J.Out(J.Filter(N("varargs"), "length")))
             self.names = saved
@@ -193,7 +196,7 @@ class StmtGen:
             tgt = self.name()
             if tgt not in self.frags:
                 self.frags.append(tgt)
-            return J.SetBlock(tgt, self.body(depth - 1, inloop, inmacro),
+            return J.SetBlock(tgt, self.body(depth - 1, inloop, inmacro) + ([J.Out(C(META))] if rnd.random() < 0.4 else []),
                               None if "neutral" in self.f else rnd.choice([None, None, "string", "e"]))
         if r < 0.93:
             return J.FilterBlock("default" if "neutral" in self.f else rnd.choice(["string", "e", "default"]),
@@ -558,8 +561,9 @@ def expr_datas():
 
 
 class ExprGen:
-    def __init__(self, rnd):
+    def __init__(self, rnd, rich=False):
         self.rnd = rnd
+        self.rich = rich        # markup-rich mode: mostly string expressions with safe / escaped parts
 
     def pick(self, *xs):
         return self.rnd.choice(xs)
@@ -606,6 +610,8 @@ class ExprGen:
 
     def gstr(self, d):
         r = self.rnd.random()
+        if self.rich and r < 0.25:
+            return self.pick(N("m1"), J.Filter(N("s1"), "safe"), J.Filter(C("<i>"), "safe"), J.Filter(N("s1"), "e"), N("m1"))
         if d <= 0 or r < 0.3:
             return self.pick(C("lit<"), C(""), N("s1"), N("s2"), N("m1"), C("q"))
         if r < 0.5: return J.Concat(*[self.gany(d - 1) for _ in range(self.rnd.randint(2, 3))])
@@ -630,6 +636,7 @@ class ExprGen:
 
     def gany(self, d):
         r = self.rnd.random()
+        if self.rich and r < 0.7: return self.gstr(d)
         if r < 0.25: return self.gint(d)
         if r < 0.4: return self.gbool(d)
         if r < 0.55: return self.gstr(d)
@@ -647,9 +654,9 @@ class ExprGen:
                          J.Bin("//", self.gint(d - 1), C(0)))
 
 
-def expr_cases(seed, n, start_id=1, depth=3, auto=None):
+def expr_cases(seed, n, start_id=1, depth=3, auto=None, rich=False):
     rnd = random.Random(seed)
-    g = ExprGen(rnd)
+    g = ExprGen(rnd, rich)
     cases = []
     datas = expr_datas()
     for i in range(n):
@@ -731,7 +738,7 @@ def neutral_corpus(seed, n_stmt, n_inh, n_mod, auto, start_id=1):
     _NEUTRAL[0] = True
     try:
         cases = random_cases(seed * 31 + 1, n_stmt, start_id=start_id, auto_mode="on" if auto else "off", size=8,
-                             features=("loopcontrols", "neutral"), neutral=True)
+                             features=("loopcontrols", "neutral", "recursive"), neutral=True)
         cases += inherit_cases(seed * 31 + 2, n_inh, start_id=start_id + len(cases), auto=auto)
         cases += module_cases(seed * 31 + 3, n_mod, start_id=start_id + len(cases), auto=auto)
     finally:
@@ -884,8 +891,9 @@ def scope_pattern(rnd):
         elif k == "macro":
             name = f"m{depth}"
             params = [x] if outermost else rnd.choice([[], ["q"], [x]])
-            body = [J.Macro(name, params, [C(3)] * len(params) if rnd.random() < 0.5 else [], body + tail),
-                    J.Out(J.Call(N(name), [C(4)] if params and rnd.random() < 0.6 else []))]
+            dflt = rnd.choice([[], [C(3)] * len(params), [N(p_) for p_ in params], [J.Filter(N(p_), "default", [C(2)]) for p_ in params]])
+            body = [J.Macro(name, params, dflt, [J.Out(N(p_)) for p_ in params] + [J.Out(J.Test(N(p_), "defined")) for p_ in params] + body + tail),
+                    J.Out(J.Call(N(name), [C(4)] if params and rnd.random() < 0.5 else []))]
         elif k == "setblock":
             body = [J.SetBlock("sb", body + tail), J.Out(N("sb"))]
         else:
@@ -898,3 +906,52 @@ def scope_cases(seed, n, start_id=1):
     datas = [{}, {"a": J.vint(7), "b": J.vint(6), "c": J.vbool(True)}, {"a": J.vstr("A"), "c": J.vbool(False)},
              {"b": J.vint(0), "c": J.vbool(True)}]
     return [J.make_case(start_id + i, {"main": J.template(scope_pattern(rnd), False)}, "main", datas) for i in range(n)]
+
+
+# ---------------------------------------------------------------------------
+# fragment algebra (C15 / C16): every way of obtaining an already-rendered fragment, combined
+# with data through every string-combining operation
+# ---------------------------------------------------------------------------
+
+def fragment_cases(auto, start_id=1, neutral=True):
+    S = N("s")
+    frags = {
+        "macro": ([J.Macro("m", ["a"], [], [J.Text("<m>"), J.Out(N("a")), J.Out(C(META))])], J.Call(N("m"), [S])),
+        "setblock": ([J.SetBlock("fr", [J.Text("t"), J.Out(S)])], N("fr")),
+        "caller": None,
+        "self": ([], J.Call(J.Getattr(N("self"), "blk"))),
+        "importmacro": ([J.Import(C("lib"), "lib")], J.Call(J.Getattr(N("lib"), "m"), [S])),
+        "loop": None,
+    }
+    combos = [
+        ("tilde-right", lambda f: J.Concat(f, S)), ("tilde-left", lambda f: J.Concat(S, f)), ("tilde-both", lambda f: J.Concat(f, f)),
+        ("tilde-lit", lambda f: J.Concat(f, C("q<"))), ("plus-right", lambda f: J.Bin("+", f, S)), ("plus-left", lambda f: J.Bin("+", S, f)),
+        ("join", lambda f: J.Filter(J.List([f, S]), "join", [C("|")])), ("join-sep", lambda f: J.Filter(J.List([S, S]), "join", [f])),
+        ("default", lambda f: J.Filter(N("nope"), "default", [f])), ("cond", lambda f: J.Cond(S, f, S)), ("or", lambda f: J.Or(C(""), f)),
+        ("tilde-3", lambda f: J.Concat(S, f, C("z"))),
+    ]
+    lib = J.template([J.Macro("m", ["a"], [], [J.Text("<lib>"), J.Out(N("a"))])], auto)
+    cases = []
+    datas = [{"s": J.vstr(META)}, {"s": J.vstr("p&q")}, {"s": J.vstr("")}]
+    for fname, fr in frags.items():
+        if fr is None:
+            continue
+        pre, f = fr
+        for cname, mk in combos:
+            body = list(pre) + [J.Text("["), J.Out(mk(f)), J.Text("]")]
+            if fname == "self":
+                body = [J.Block("blk", [J.Text("b"), J.Out(S)])] + body
+            tpls = {"main": J.template(body, auto), "lib": lib}
+            cases.append(J.make_case(start_id + len(cases), tpls, "main", datas, neutral=neutral))
+            # the same inside a macro, a call block and a set block
+            wrapped = list(pre) + ([J.Block("blk", [J.Text("b"), J.Out(S)])] if fname == "self" else []) + [
+                J.Macro("w", [], [], [J.Out(mk(f)), J.Out(J.Call(N("caller")))]),
+                J.CallBlock(N("w"), [], [], [J.Text("c"), J.Out(mk(f))]),
+                J.SetBlock("sb", [J.Out(mk(f))]), J.Out(N("sb")), J.Out(J.Concat(N("sb"), S))]
+            cases.append(J.make_case(start_id + len(cases), {"main": J.template(wrapped, auto), "lib": lib}, "main", datas, neutral=neutral))
+    # recursive loop fragment
+    tree = J.vlist([J.vdict([(J.vstr("n"), J.vstr(META)), (J.vstr("k"), J.vlist([J.vdict([(J.vstr("n"), J.vstr("c<")), (J.vstr("k"), J.vlist([]))])]))])])
+    for cname, mk in combos[:4]:
+        body = [J.For(J.TName("t"), N("tr"), [J.Out(J.Getattr(N("t"), "n")), J.Text("("), J.Out(mk(J.Call(N("loop"), [J.Getattr(N("t"), "k")]))), J.Text(")")], recursive=True)]
+        cases.append(J.make_case(start_id + len(cases), {"main": J.template(body, auto)}, "main", [{"tr": tree, "s": J.vstr(META)}], neutral=neutral))
+    return cases
